@@ -115,6 +115,9 @@ def _seg_fields(name, segvar):
     _, x, who = segvar.split(":")
     carrier = "AB"[int(who)]
     return ((x + "CA" + x) if name == carrier else "GGTT"), False
+  if segvar == "lnmix":
+    # every segment has a sequence, only A and C also carry LN
+    return SEQS[name], name in "AC"
   star = (segvar == "star") or (segvar == "mix" and name in "BD")
   seq = "*" if star else {"iupac": SEQS_IUPAC, "iupac2": SEQS_IUPAC2,
                           "iupac3": SEQS_IUPAC3}.get(segvar, SEQS)[name]
@@ -277,9 +280,9 @@ def family_gfa1(tier, full3=True):
     for ls in full(n, k, kmin=1):
       out.append(("full", spec("g1", n, "seq", ls)))
   # F3: sequence variants on the pattern that mixes forms and overlaps
-  for sv in ("star", "seqln", "mix", "iupac", "iupac2", "iupac3"):
+  for sv in ("star", "seqln", "mix", "iupac", "iupac2", "iupac3", "lnmix"):
     for n in (2, 3):
-      for sh in shapes(n, 3 if sv not in ("seqln", "iupac", "iupac2", "iupac3") or not quick else 2, kmin=1):
+      for sh in shapes(n, 3 if sv not in ("seqln", "iupac", "iupac2", "iupac3", "lnmix") or not quick else 2, kmin=1):
         out.append(("segvar", spec("g1", n, sv, patterned(sh, 2))))
   # F3b: every IUPAC letter, both cases, on a segment that is traversed
   #      backwards (two segments, joined R-R or L-L: exactly one of them is
